@@ -949,6 +949,20 @@ func main() {
 			{{kInst, 0, 0, 1}, {kInst, 0, 1, 2}, {kInst, 1, 2, 3}, {kRtClose, 0}, {kIsClosed, 1}, {kIsClosed, 2}, {kIsClosed, 3}, {kInst, 0, 0, 4}, {kInst, 1, 1, 5},
 				{kClose, 1, 7}, {kIsClosed, 1}, {kRtClose, 4}, {kLook, 1}},
 		}
+		// bulk: 220 named modules alive at once, then the first 130 closed one by one; after each close its name is free
+		// (lookup finds nothing, the name can be taken, and freed again): the registry's bookkeeping of many names
+		// (map growth and shrinking) must not show
+		{
+			var bulk []Op
+			for i := int64(1); i <= 220; i++ {
+				bulk = append(bulk, Op{kInst, 0, i, i})
+			}
+			for i := int64(1); i <= 130; i++ {
+				bulk = append(bulk, Op{kClose, i, 0}, Op{kLook, i}, Op{kInst, 0, i, 1000 + i}, Op{kLook, i}, Op{kClose, 1000 + i, 0}, Op{kLook, i})
+			}
+			bulk = append(bulk, Op{kLook, 131}, Op{kLook, 220}, Op{kRtClose, 0}, Op{kLook, 200})
+			fixed = append(fixed, bulk)
+		}
 		for _, ops := range fixed {
 			out.Emit(runSeq(ctx, ops))
 		}
